@@ -212,9 +212,10 @@ func (r *Recorder) SetHijackConn(c net.Conn) { r.hijackConn = c }
 func (r *Recorder) Result() *Resp {
 	out := &Resp{Status: r.status, Header: r.snap, Body: r.body.String()}
 	if !r.wrote {
-		out.Dropped = true
-		out.Err = "handler returned without writing a response"
-		out.Header = http.Header{}
+		// net/http answers 200 with the headers set so far and an empty body when a handler
+		// returns without writing anything.
+		out.Status = 200
+		out.Header = r.hdr.Clone()
 		return out
 	}
 	if r.writeErr != nil {
